@@ -217,7 +217,7 @@ impl Prop for C04 {
 			ast::gen_schema(rng, cfg)
 		};
 		let env = Env::build(&schema);
-		let vcfg = ValCfg { max_len: 1 + rng.usize(12), max_depth: 5, budget: 8 + rng.below(60) as i32 };
+		let vcfg = ValCfg { max_len: 1 + rng.usize(12), max_depth: 5, budget: 8 + rng.below(60) as i32, str_boost: 0 };
 		let v = val::gen_val(rng, &env, &schema, &vcfg);
 		let layout = Layout { seed: rng.next_u64(), split_blocks: rng.bool(), negative_counts: rng.chance(1, 3), pad_varints: 0 };
 		let (mut bytes, tokens) = ref_datum::encode(&env, &schema, &v, layout).expect("HARNESS: reference encoder rejected a generated value");
